@@ -21,6 +21,8 @@ def _proj(t, e):
             return t[3][e]
         return ("field", e, t)
     if isinstance(e, dict) and "v" in e:
+        if t[0] == "agg" and t[2] is not None and t[2] == e.get("name"):
+            return t           # the variant this aggregate was built as: its fields are the components
         return ("downcast", e.get("name") or e["v"], t)
     return ("proj", str(e), t)
 
@@ -31,6 +33,7 @@ class PathEval:
         self.b = body
         self.max_paths = max_paths
         self.depth = 0
+        self.no_inline = set()
         self.out = []
 
     def place(self, env, p):
@@ -102,6 +105,10 @@ class PathEval:
         def some(x):
             return ("agg", opt, "Some", (x,))
         none = ("agg", opt, "None", ())
+        if short == "get" and name.startswith("std::sync::OnceLock") and len(args) == 1:
+            # an Option from the environment: decided once, at its source
+            g = ("callv", name, args)
+            return [(((("some", g), True),), some(("payload", g))), (((("some", g), False),), none)]
         if short == "checked_div" and len(args) == 2 and not name.startswith(self.f.crate + "::"):
             a, b = args
             return [((self.canon_cond(("binop", "Ne", b, ("int", 0)), True),), some(("binop", "Div", a, b))),
@@ -124,6 +131,12 @@ class PathEval:
                 return [(c, some(v)) for c, v in r] if r is not None else None
             if short == "unwrap_or" and len(args) == 2:
                 return [((), o[3][0] if is_some else args[1])]
+            if short in ("copied", "cloned") and len(args) == 1:
+                return [((), o)]           # the payload by value: references are transparent in these terms
+            if short == "unwrap_or_else" and len(args) == 2:
+                if is_some:
+                    return [((), o[3][0])]
+                return None
             if short in ("is_some", "is_none") and len(args) == 1:
                 return [((), ("int", 1 if is_some == (short == "is_some") else 0))]
         return None
@@ -186,10 +199,11 @@ class PathEval:
                 return
             # a crate-local, loop-free callee (e.g. another accessor) is evaluated in place: its paths continue here
             cb = self.f.body((fn.get("resolved") or {}).get("def") or name) if fn else None
-            if cb is not None and self.depth < 3 and cb.def_kind in ("Fn", "AssocFn") and not self.f.fns.get(cb.defn, {}).get("async") and len(args) == cb.arg_count:
+            if cb is not None and cb.defn not in self.no_inline and self.depth < 3 and cb.def_kind in ("Fn", "AssocFn") and not self.f.fns.get(cb.defn, {}).get("async") and len(args) == cb.arg_count:
                 try:
                     sub = PathEval(self.f, cb, self.max_paths)
                     sub.depth = self.depth + 1
+                    sub.no_inline = self.no_inline
                     env0 = {i + 1: a for i, a in enumerate(args)}
                     sub._walk(0, env0, (), frozenset())
                     res = [(c2, v2) for c2, v2, _ in sub.out]
@@ -217,8 +231,15 @@ class PathEval:
                 self._walk(tgt, env, conds, onpath)
                 return
             if c[0] == "variant":
-                # discriminant of a known aggregate: resolved by the caller via variant names when possible
-                pass
+                # discriminant of an aggregate built on this path
+                idx = {"None": 0, "Some": 1, "Ok": 0, "Err": 1, "Ready": 0, "Pending": 1, "Continue": 0, "Break": 1}.get(c[1])
+                if idx is not None:
+                    tgt = t["otherwise"]
+                    for v, b2 in t["arms"]:
+                        if int(v) == idx:
+                            tgt = b2
+                    self._walk(tgt, env, conds, onpath)
+                    return
             vals = [int(v) for v, _ in t["arms"]]
             for v, b2 in t["arms"]:
                 if vals == [0]:
@@ -282,9 +303,11 @@ def reduce(entries):
     return frozenset(cur)
 
 
-def denotation(f, body, project=None):
+def denotation(f, body, project=None, no_inline=()):
     """Reduced denotation of the return value (or of project(return term))."""
-    paths = PathEval(f, body).run()
+    pe = PathEval(f, body)
+    pe.no_inline = set(no_inline)
+    paths = pe.run()
     ent = []
     for conds, ret, env in paths:
         v = project(ret) if project else ret
